@@ -5,6 +5,7 @@ import (
 	"encoding/json"
 	"fmt"
 	"os"
+	"strings"
 	"time"
 
 	"verif/mc/common"
@@ -103,12 +104,22 @@ type Exec struct {
 	All  []*common.Violation
 	S    *Suite
 	mem  bytes.Buffer
+	dir  string // FileStore: directory of this execution
 }
+
+// ScratchDir returns a fresh directory for one execution of a suite that runs
+// on the real file-backed storages (Cfg.FileStore).
+var ScratchDir func() string
 
 func NewExec(s *Suite) (*Exec, *common.Violation) {
 	x := &Exec{S: s}
 	if s.Boot != nil {
 		x.C = s.Boot(s.Budget)
+	} else if s.Cfg.FileStore {
+		cfg := s.Cfg
+		cfg.Dir = ScratchDir()
+		x.dir = cfg.Dir
+		x.C = sim.New(cfg, s.Budget)
 	} else {
 		x.C = sim.New(s.Cfg, s.Budget)
 	}
@@ -121,15 +132,37 @@ func NewExec(s *Suite) (*Exec, *common.Violation) {
 	if v := x.check(); v != nil {
 		return x, v
 	}
+	// The seed is applied completely: it is a scenario that is valid on a correct
+	// library; on a broken one every violation met on the way is kept (x.All)
+	// and the first one returned, so that a check can still reach the
+	// violation of its own property further down the seed.
+	var seedAll []*common.Violation
 	for _, e := range s.Seed {
 		if v, err := x.Apply(e); err != nil {
+			if len(seedAll) > 0 {
+				// the broken library left the seed's script: report what was seen
+				x.All = seedAll
+				return x, seedAll[0]
+			}
 			panic(fmt.Sprintf("INFRA: suite %s: seed event %v: %v", s.Name, e, err))
 		} else if v != nil {
-			return x, v
+			for _, w := range x.All {
+				dup := false
+				for _, o := range seedAll {
+					dup = dup || (o.Property == w.Property && o.Signature == w.Signature)
+				}
+				if !dup {
+					seedAll = append(seedAll, w)
+				}
+			}
 		}
 	}
 	// budgets count from the end of the seed
 	x.C.B = s.Budget
+	if len(seedAll) > 0 {
+		x.All = seedAll
+		return x, seedAll[0]
+	}
 	return x, nil
 }
 
@@ -145,6 +178,12 @@ func (x *Exec) check() *common.Violation {
 	for _, m := range x.Mons {
 		if v := m.Step(x.C); v != nil {
 			x.All = append(x.All, v)
+		}
+	}
+	for _, n := range x.C.Nodes {
+		if n.ConstructErr != "" {
+			x.All = append(x.All, &common.Violation{Property: "C14", Signature: "restart-failed:" + strings.SplitN(n.ConstructErr, ":", 2)[0],
+				Detail: fmt.Sprintf("creating n%d over its own storage failed: %s", n.Idx, n.ConstructErr)})
 		}
 	}
 	if len(x.All) > 0 {
@@ -173,7 +212,13 @@ func (x *Exec) Key() [16]byte {
 	return x.C.Key(x.mem.Bytes())
 }
 
-func (x *Exec) Close() { x.C.Teardown() }
+func (x *Exec) Close() {
+	x.C.Teardown()
+	if x.dir != "" {
+		x.C.RemoveIntercept()
+		os.RemoveAll(x.dir)
+	}
+}
 
 // DFS explores everything reachable from prefix (events applied after the
 // suite's seed) within the suite's budgets.
@@ -203,6 +248,25 @@ type DFS struct {
 	// violation it causes is reported here.
 	NewTail bool
 	stop    bool
+	// violations met inside the seed are reported by the first boot only
+	seedReported bool
+}
+
+// prunes reports whether violations end a path: those of the checked
+// properties (all, if none is named) and panics do; the search goes on beyond
+// violations of other properties.
+func (d *DFS) prunes(vs []*common.Violation) bool {
+	if len(d.Props) == 0 {
+		return len(vs) > 0
+	}
+	for _, w := range vs {
+		for _, pr := range d.Props {
+			if w.Property == pr || w.Property == "C18" {
+				return true
+			}
+		}
+	}
+	return false
 }
 
 func (d *DFS) count(e sim.Event) {
@@ -227,8 +291,23 @@ func (d *DFS) Run(prefix []sim.Event) {
 		var v *common.Violation
 		x, v = NewExec(d.S)
 		if v != nil {
-			d.found(v, nil)
-			return false
+			// violations inside the seed: reported once; they end the search only
+			// if one of them belongs to the checked properties
+			prune := len(d.Props) == 0
+			for _, w := range x.All {
+				if !d.seedReported {
+					d.found(w, nil)
+				}
+				for _, pr := range d.Props {
+					if w.Property == pr || w.Property == "C18" {
+						prune = true
+					}
+				}
+			}
+			d.seedReported = true
+			if prune {
+				return false
+			}
 		}
 		for _, e := range path() {
 			v, err := x.Apply(e)
@@ -236,7 +315,7 @@ func (d *DFS) Run(prefix []sim.Event) {
 			if err != nil {
 				panic(fmt.Sprintf("INFRA: nondeterminism: replay of %v failed at %v: %v", path(), e, err))
 			}
-			if v != nil {
+			if v != nil && d.prunes(x.All) {
 				// a violation on an already explored path was reported before
 				return false
 			}
@@ -371,6 +450,15 @@ func (d *DFS) step(x *Exec, p []sim.Event) bool {
 	e := p[len(p)-1]
 	d.Stats.Transitions++
 	d.count(e)
+	defer func() {
+		if r := recover(); r != nil {
+			var ps []string
+			for _, q := range p {
+				ps = append(ps, q.String())
+			}
+			panic(fmt.Sprintf("%v\n  at path: %s", r, strings.Join(ps, "; ")))
+		}
+	}()
 	v, err := x.Apply(e)
 	if err != nil {
 		panic(fmt.Sprintf("INFRA: enabled event %v could not be applied: %v", e, err))
